@@ -311,7 +311,10 @@ func (b *windowTimeBuffer) purge(oldest time.Time, inclusive bool) {
 		}
 		b.size = b.stop - b.start
 	} else {
-		if include(b.window[l-1].Time()) {
+		// The data wraps around (or the buffer is empty). Only when start < l is there a
+		// tail segment window[start:l]; with start == l (the buffer was drained while
+		// stop == l and has wrapped since) window[l-1] is the newest point, not the tail.
+		if b.start < l && include(b.window[l-1].Time()) {
 			for ; b.start < l; b.start++ {
 				if include(b.window[b.start].Time()) {
 					break
